@@ -54,61 +54,80 @@ def encodeField (env : Env) : Nat → FieldTag → Ty → Val → Builder → Ou
 def encode (env : Env) : Nat → Ty → Val → Builder → Outcome Builder
   | 0, _, _, _ => .err "fuel"
   | fuel + 1, T, v, b =>
-    match T, v with
-    | .uint n, .int i => b.writeUint i.toNat n
-    | .int n, .int i => b.writeInt i n
-    | .bool, .bool x => b.writeBit x
-    | .bytes n, .bytes bs => if bs.length = n then b.writeBytes bs else .err "bad value"
-    | .cell, .cell c => .ok (Builder.ofCell c)      -- encodeCell: `*c = o.(boc.Cell)`
-    | .ptr m _, .none =>
-      if m then .panic "nil pointer dereference" else .err "can't encode empty pointer"
-    | .ptr _ t, .cons x .nil => encode env fuel t x b
-    | .struct fs, v => encodeFields env fuel fs v b
-    | .sum cs, .cons (.sym name) (.cons x .nil) =>
-      if name = "" then .err "empty SumType value"
-      else match cs.find name with
-        | none => .err "invalid SumType value"
-        | some (tg, t) => do
-          let b ← encodeTag tg b
-          encode env fuel t x b
-    | .named id, v =>
-      match env id with
+    match T with
+    | .uint n => (match v with
+      | .int i => b.writeUint i.toNat n
+      | _ => .err "bad value")
+    | .int n => (match v with
+      | .int i => b.writeInt i n
+      | _ => .err "bad value")
+    | .bool => (match v with
+      | .bool x => b.writeBit x
+      | _ => .err "bad value")
+    | .bytes n => (match v with
+      | .bytes bs => if bs.length = n then b.writeBytes bs else .err "bad value"
+      | _ => .err "bad value")
+    | .cell => (match v with
+      | .cell c => .ok (Builder.ofCell c)      -- encodeCell: `*c = o.(boc.Cell)`
+      | _ => .err "bad value")
+    | .ptr m t => (match v with
+      | .none => if m then .panic "nil pointer dereference" else .err "can't encode empty pointer"
+      | .cons x .nil => encode env fuel t x b
+      | _ => .err "bad value")
+    | .struct fs => encodeFields env fuel fs v b
+    | .sum cs => (match v with
+      | .cons (.sym name) (.cons x .nil) =>
+        if name = "" then .err "empty SumType value"
+        else match cs.find name with
+          | none => .err "invalid SumType value"
+          | some (tg, t) => do
+            let b ← encodeTag tg b
+            encode env fuel t x b
+      | _ => .err "bad value")
+    | .named id =>
+      (match env id with
       | some t => encode env fuel t v b
-      | none => .err "unknown type"
-    | .magic _, _ => .err "invalid tag"            -- Magic reached with the empty tag
-    | .maybe _, .none => b.writeBit false
-    | .maybe t, .cons x .nil => do
-      let b ← b.writeBit true
-      encode env fuel t x b
-    | .either l r, .cons (.sym side) (.cons x .nil) =>
-      if side = "R" then do
+      | none => .err "unknown type")
+    | .magic _ => .err "invalid tag"            -- Magic reached with the empty tag
+    | .maybe t => (match v with
+      | .none => b.writeBit false
+      | .cons x .nil => do
         let b ← b.writeBit true
-        encode env fuel r x b
-      else do
-        let b ← b.writeBit false
-        encode env fuel l x b
-    | .eitherRef t, .cons (.sym side) (.cons x .nil) =>
-      if side = "R" then do
-        let b ← b.writeBit true
-        if b.refs.length < cellRefs then do
-          let child ← encode env fuel t x Builder.empty
-          pure { b with refs := b.refs ++ [child.toCell] }
-        else .err "too many refs"
-      else do
-        let b ← b.writeBit false
         encode env fuel t x b
-    | .refT t, v => do
+      | _ => .err "bad value")
+    | .either l r => (match v with
+      | .cons (.sym side) (.cons x .nil) =>
+        if side = "R" then do
+          let b ← b.writeBit true
+          encode env fuel r x b
+        else do
+          let b ← b.writeBit false
+          encode env fuel l x b
+      | _ => .err "bad value")
+    | .eitherRef t => (match v with
+      | .cons (.sym side) (.cons x .nil) =>
+        if side = "R" then do
+          let b ← b.writeBit true
+          if b.refs.length < cellRefs then do
+            let child ← encode env fuel t x Builder.empty
+            pure { b with refs := b.refs ++ [child.toCell] }
+          else .err "too many refs"
+        else do
+          let b ← b.writeBit false
+          encode env fuel t x b
+      | _ => .err "bad value")
+    | .refT t => do
       let child ← encode env fuel t v Builder.empty
       b.addRef child.toCell
-    | .prim p, v => Prim.enc p v b
-    | .vmStack e, v => do
+    | .prim p => Prim.enc p v b
+    | .vmStack e => do
       let b ← b.writeUint (Prim.valLen v) 24
       encodeStack env fuel e v b
-    | .dictE _, .nil => b.writeBit false           -- hme_empty$0
-    | .dictE _, _ => .err "unmodelled"
-    | .encErr _, _ => .err "marshaling not implemented"
-    | .opaque _, _ => .err "unmodelled"
-    | _, _ => .err "bad value"
+    | .dictE _ => (match v with
+      | .nil => b.writeBit false           -- hme_empty$0
+      | _ => .err "unmodelled")
+    | .encErr _ => .err "marshaling not implemented"
+    | .opaque _ => .err "unmodelled"
 
 /-- encodeBasicStruct -/
 def encodeFields (env : Env) : Nat → Fields → Val → Builder → Outcome Builder
